@@ -510,7 +510,8 @@ CLAUSE_WORDS = {'FROM', 'WHERE', 'AND', 'OR', 'GROUP BY', 'ORDER BY', 'HAVING', 
 
 def _reindent_statements():
     """(name, tree description).  Leaves: ('kw', text) Keyword, ('dml', text), ('n', text) inside Identifier, ('i', text) integer, ('p', text)
-    punctuation, ('c', text) comparison operator, 'w' one blank, 'nl' line break; groups ('I'|'L'|'W'|'P'|'C', [...])."""
+    punctuation, ('c', text) comparison operator, ('akw', text) a keyword that separates arguments of a call (EXTRACT(x FROM y)) and opens no clause,
+    'w' one blank, 'nl' line break; groups ('I'|'L'|'W'|'P'|'C'|'F', [...])."""
     w = 'w'
 
     def ident(x):
@@ -526,6 +527,12 @@ def _reindent_statements():
                 out += [('p', ','), w]
             out.append(ident(x))
         return ('L', out)
+
+    def func(name, args):
+        return ('F', [ident(name), ('P', [('p', '(')] + args + [('p', ')')])])
+
+    def sub(col, tab):
+        return ('P', [('p', '('), ('dml', 'select'), w, func('max', [ident(col)]), w, ('kw', 'from'), w, ident(tab), w, ('W', [('kw', 'where'), w, cmp_('k', '1')]), ('p', ')')])
     sel = [('dml', 'select'), w, lst('a', 'b'), w, ('kw', 'from'), w, ident('t')]
     where = ('W', [('kw', 'where'), w, cmp_('x', '1'), w, ('kw', 'and'), w, cmp_('y', '2'), w, ('kw', 'or'), w, cmp_('z', '3')])
     out = [('select-from', sel), ('select-from-where', sel + [w, where]),
@@ -543,6 +550,12 @@ def _reindent_statements():
            ('blank, line break, blank in front', [w, 'nl', w] + sel + [w, where]),
            ('statement that starts with a parenthesised select', [('P', [('p', '('), ('dml', 'select'), w, ident('b'), w, ('kw', 'from'), w, ident('u'), ('p', ')')]), w,
                                                                  ('kw', 'union'), w, ('P', [('p', '('), ('dml', 'select'), w, ident('c'), ('p', ')')])]),
+           ('subquery as a function argument', [('dml', 'select'), w, func('coalesce', [('L', [sub('y', 'u'), ('p', ','), w, ('i', '0')])]), w, ('kw', 'from'), w, ident('t')]),
+           ('subquery behind an extract(.. from ..) argument', [('dml', 'select'), w, func('coalesce', [('L', [func('extract', [('akw', 'year'), w, ('akw', 'from'), w, ident('d')]),
+                                                                                                          ('p', ','), w, sub('y', 'u')])]), w, ('kw', 'from'), w, ident('t')]),
+           ('subquery as the operand of extract(.. from ..)', [('dml', 'select'), w, func('extract', [('akw', 'epoch'), w, ('akw', 'from'), w, sub('ts', 'log')]), w, ('kw', 'from'), w, ident('t')]),
+           ('subquery behind a trim(.. from ..) call in the select list', [('dml', 'select'), w, ('L', [func('trim', [ident('c'), w, ('akw', 'from'), w, ident('s')]), ('p', ','), w, sub('y', 'u')]),
+                                                                         w, ('kw', 'from'), w, ident('t')]),
            ('lower and upper case, two statements', None)]
     return [o for o in out if o[1] is not None]
 
@@ -559,8 +572,10 @@ def check_reindent_simulation(ctx, rid='R10.10', option_sets=None, filter_name='
     loc = f'{fr.mod.relpath}:{fr.node.lineno}'
     WSP, NL, DML, KW, NAME, PUN, CMP, INT = (TT(('Text', 'Whitespace')), TT(('Text', 'Whitespace', 'Newline')), TT(('Keyword', 'DML')), TT(('Keyword',)), TT(('Name',)),
                                              TT(('Punctuation',)), TT(('Operator', 'Comparison')), TT(('Literal', 'Number', 'Integer')))
-    kinds = {'kw': KW, 'dml': DML, 'n': NAME, 'i': INT, 'p': PUN, 'c': CMP}
-    classes = {k: repo.classes.get(f'sqlparse.sql.{v}') for k, v in (('S', 'Statement'), ('I', 'Identifier'), ('L', 'IdentifierList'), ('W', 'Where'), ('P', 'Parenthesis'), ('C', 'Comparison'))}
+    kinds = {'kw': KW, 'dml': DML, 'n': NAME, 'i': INT, 'p': PUN, 'c': CMP, 'akw': KW}
+    nonclause = set()
+    classes = {k: repo.classes.get(f'sqlparse.sql.{v}') for k, v in (('S', 'Statement'), ('I', 'Identifier'), ('L', 'IdentifierList'), ('W', 'Where'), ('P', 'Parenthesis'), ('C', 'Comparison'),
+                                                                     ('F', 'Function'))}
     ctx.need(all(classes.values()), 'sqlparse.sql classes not found')
 
     def build(desc, upper):
@@ -571,8 +586,10 @@ def check_reindent_simulation(ctx, rid='R10.10', option_sets=None, filter_name='
             elif d == 'nl':
                 t_ = ME.AbsToken(repo, ttype=NL, value='\n')
             elif d[0] in kinds:
-                v = d[1].upper() if (upper and d[0] in ('kw', 'dml')) else d[1]
+                v = d[1].upper() if (upper and d[0] in ('kw', 'dml', 'akw')) else d[1]
                 t_ = ME.AbsToken(repo, ttype=kinds[d[0]], value=v)
+                if d[0] == 'akw':
+                    nonclause.add(id(t_))
             else:
                 t_ = group(classes[d[0]], build(d[1], upper))
             if not t_.is_group:
@@ -653,7 +670,7 @@ def check_reindent_simulation(ctx, rid='R10.10', option_sets=None, filter_name='
             for t in after:
                 if not WSP.contains(t.ttype):
                     word = ' '.join(t.value.upper().split())
-                    if clause_lines and KW.contains(t.ttype) and not first_sig and (word in CLAUSE_WORDS or word.endswith('JOIN')) and not (word == 'AND' and between):
+                    if clause_lines and KW.contains(t.ttype) and id(t) not in nonclause and not first_sig and (word in CLAUSE_WORDS or word.endswith('JOIN')) and not (word == 'AND' and between):
                         line_start = raw.rfind('\n', 0, pos) + 1
                         if raw[line_start:pos].strip() != '' or (line_start == 0 and raw[:pos].strip() == '' and False):
                             bad.setdefault('a clause keyword does not start its own line', []).append(f'{name}: {t.value!r} in {text!r}')
